@@ -510,7 +510,7 @@ def run(ctx):
                                           for phase in params.get("phases", ())) else 0.0,
                  "free_switch_cost": 1,
                      "time_jump_cost": None if ctx.quick else 1},
-        "budget": 3000 if ctx.quick else 12000,
+        "budget": 3000 if ctx.quick else 8000,
     } for params in scenario_params(ctx.tier)]
     if ctx.quick:
         # the shutdown-right-after-running window only exists between two source lines
